@@ -419,6 +419,13 @@ def shard_specs(ctx):
         specs.append(("rand_big", 500, ctx.rng.getrandbits(32)))
     for _ in range(24 if big else 3):
         specs.append(("malformed", 500, ctx.rng.getrandbits(32)))
+    # developer knob for bug-detection trials on a loaded machine: keep only a fraction of the exhaustive
+    # shards (never set by bin/check; recorded in the evidence when used)
+    frac = float(os.environ.get("C09_SPEC_FRACTION", "1") or 1)
+    if frac < 1:
+        sub = random.Random(ctx.seed)
+        specs = [s for s in specs if sub.random() < (frac if s[0] == "exh" else min(1.0, 5 * frac))]
+        ctx.notes.append("C09_SPEC_FRACTION=%s: exhaustive shards subsampled" % frac)
     return specs
 
 
